@@ -183,9 +183,23 @@ func (w *c09world) progress() {
 			}
 		}
 	}
-	if !w.stopped && w.call.sent && w.call.released && !w.call.answered && w.log().Count("h.exit", "clientcall") > 0 && w.log().Count("h.exit", "clientcall2") > 0 {
-		w.call.answered = true
-		w.expect = append(w.expect, "[response id=1 result=clientcall | response id=2 result=clientcall2]")
+	if w.call.sent && w.call.released && !w.call.answered && w.log().Count("h.exit", "clientcall") > 0 && w.log().Count("h.exit", "clientcall2") > 0 {
+		const answer = "[response id=1 result=clientcall | response id=2 result=clientcall2]"
+		if !w.stopped {
+			w.call.answered = true
+			w.expect = append(w.expect, answer)
+		} else {
+			// the handlers finished in the step in which the server was stopped (a
+			// reply racing with Stop let the notification ahead of them return):
+			// their answer may have been sent before the stop took effect, or not
+			for _, rec := range w.rig.Outbound() {
+				if c09canon(rec) == answer {
+					w.call.answered = true
+					w.expect = append(w.expect, answer)
+					break
+				}
+			}
+		}
 	}
 }
 
